@@ -43,6 +43,9 @@ type C03Plan struct {
 	Rounds int     `json:"rounds"`
 	Sql    bool    `json:"sql"`
 	Cut    *C03Cut `json:"cut,omitempty"`
+	// NoChain: the owners' key stores hold bare keys (no certificate chain)
+	// although vouchers are extended to the owners' certificate chains.
+	NoChain bool `json:"owner_store_without_chain,omitempty"`
 }
 
 type c03 struct {
@@ -104,6 +107,11 @@ func (p *c03) Prepare(t *testing.T, tier string, seed uint64) {
 						pl := next(k)
 						pl.Reuse, pl.Bypass, pl.Rounds, pl.Sql = reuse, bypass, rounds, i%5 == 0
 						plans = append(plans, pl)
+						if e == protocol.X5ChainKeyEnc && !pl.Sql {
+							nc := next(k)
+							nc.Reuse, nc.Bypass, nc.Rounds, nc.NoChain = reuse, bypass, rounds, true
+							plans = append(plans, nc)
+						}
 					}
 				}
 			}
@@ -332,6 +340,13 @@ func (p *c03) Exec(env *Env, plan any) {
 		sql = map[string]bool{"mfg": true, "owner1": true, "owner2": pl.Rounds >= 2 && !pl.Reuse, "owner3": pl.Rounds >= 3 && !pl.Reuse}
 	}
 	s, cleanup := NewStdSql(nil, cfg, sql)
+	if pl.NoChain {
+		for _, n := range s.Nodes {
+			if n.Sim != nil {
+				n.Sim.OwnerKeyNoChain = true
+			}
+		}
+	}
 	defer cleanup()
 	for _, n := range []string{"owner1", "owner2", "owner3"} {
 		s.Nodes[n].Reuse = pl.Reuse
